@@ -202,9 +202,9 @@ pub fn exchanges(net: &Arc<Mutex<Vec<(Dial, PeerLog)>>>) -> Vec<Exchange> {
 fn real_localhost_pair() -> Outcome {
     use std::io::{Read, Write};
     let stop = Arc::new(std::sync::atomic::AtomicBool::new(false));
-    let mk = |tag: &'static str| -> std::io::Result<(u16, std::thread::JoinHandle<()>)> {
+    let mk_at = |tag: &'static str, bind: &'static str| -> std::io::Result<(u16, std::thread::JoinHandle<()>)> {
         let stop = stop.clone();
-        let l = std::net::TcpListener::bind("127.0.0.1:0")?;
+        let l = std::net::TcpListener::bind(bind)?;
         let port = l.local_addr()?.port();
         l.set_nonblocking(false)?;
         let h = std::thread::spawn(move || {
@@ -234,6 +234,9 @@ fn real_localhost_pair() -> Outcome {
         });
         Ok((port, h))
     };
+    let mk = |tag: &'static str| mk_at(tag, "127.0.0.1:0");
+    // an IPv6 literal in the URL is the address that is dialled (skipped on a machine without an IPv6 loopback)
+    let v6 = mk_at("server-v6", "[::1]:0").ok();
     let (a, b) = match (mk("server-a"), mk("server-b")) {
         (Ok(a), Ok(b)) => (a, b),
         _ => {
@@ -253,9 +256,22 @@ fn real_localhost_pair() -> Outcome {
         }
         _ => Outcome::fail("C08:wrong-peer:real-sockets", format!("http://localhost:{}/x answered {:?}; then http://localhost:{}/x answered {:?} (expected server-a, server-b)", a.0, r1.as_ref().map_err(|e| e.to_string()), b.0, r2.as_ref().map_err(|e| e.to_string()))),
     };
+    let out = match (&out, &v6) {
+        (Outcome::Pass, Some((port, _))) => {
+            let r = attohttpc::get(format!("http://[::1]:{port}/x")).proxy_settings(attohttpc::ProxySettings::builder().build()).connect_timeout(std::time::Duration::from_secs(2)).read_timeout(std::time::Duration::from_secs(2)).send().and_then(|r| r.text_utf8());
+            match r {
+                Ok(x) if x == "server-v6" => Outcome::Pass,
+                other => Outcome::fail("C08:wrong-peer:real-sockets:ipv6-literal", format!("http://[::1]:{port}/x answered {:?}, a listener on [::1]:{port} was waiting", other.map_err(|e| e.to_string()))),
+            }
+        }
+        _ => out,
+    };
     stop.store(true, std::sync::atomic::Ordering::Relaxed);
     let _ = a.1.join();
     let _ = b.1.join();
+    if let Some((_, h)) = v6 {
+        let _ = h.join();
+    }
     out
 }
 
@@ -360,6 +376,10 @@ pub fn check_exchange(id: &str, ex: &Exchange, url: &UrlSpec, extra_pairs: &[(St
     match form_decode(query.clone().unwrap_or_default().as_bytes()) {
         Ok(p) if p == want_pairs => {}
         other => return fail("target-query", format!("query {query:?} decodes to {other:?}, expected {want_pairs:?}")),
+    }
+    // a query component that the URL has - even an empty one - is part of the resource's identifier: it is not dropped
+    if url.query.is_some() && query.is_none() {
+        return fail("target-query", format!("the URL {} has a query component, the request target {t:?} has none", url.render()));
     }
     // 4. Host
     let hosts = req.get_all("host");
